@@ -264,6 +264,10 @@ impl<'a> IrEmitter<'a> {
                             quote! { #iter }
                         }
                     }
+                    // Iterating a string yields its characters as one-character strings
+                    IrType::String | IrType::StaticStr | IrType::StrRef => {
+                        quote! { #iter.chars().map(|c| c.to_string()) }
+                    }
                     // Iterating a dict yields its keys (Python semantics), not (key, value) pairs
                     IrType::Dict(key_ty, _) => {
                         if let IrExprKind::Var { .. } = &iterable.kind {
